@@ -116,7 +116,7 @@ func initLibSpecs() {
 		return mkSliceOf(rt, n, arr)
 	}}
 	L["strconv.Atoi"] = &libSpec{fn: func(s *State, c *ssa.CallCommon, args []Val, where string) Val {
-		s.trust("strconv.Atoi(s) = (atoi_val(s), nil) if atoi_ok(s) else (0, non-nil error): uninterpreted oracle")
+		s.trust("strconv.Atoi(s) = (atoi_val(s), nil) if atoi_ok(s) else (0, non-nil error): uninterpreted oracle; facts: \"\" and \"--\" are not numbers")
 		x := args[0].Terms[0]
 		ok := app("atoi_ok", x)
 		e := s.fresh("atoi_err", sInt)
@@ -126,7 +126,7 @@ func initLibSpecs() {
 		return v
 	}}
 	L["strconv.ParseFloat"] = &libSpec{fn: func(s *State, c *ssa.CallCommon, args []Val, where string) Val {
-		s.trust("strconv.ParseFloat(s, 64) = (pf_val(s), nil) if pf_ok(s) else (pf_errval(s), non-nil error): uninterpreted oracle")
+		s.trust("strconv.ParseFloat(s, 64) = (pf_val(s), nil) if pf_ok(s) else (pf_errval(s), non-nil error): uninterpreted oracle; facts: \"\" and \"--\" are not numbers")
 		x := args[0].Terms[0]
 		ok := app("pf_ok", x)
 		e := s.fresh("pf_err", sInt)
